@@ -453,6 +453,20 @@ def run(ctx):
             mine = g3 if t in ('Int16', 'DoubleFloat', 'SingleFloat') else g3[ti::10]
             for i in range(0, len(mine), 80):
                 items.append(('graphs', (t, mine[i:i + 80]), ctx.seed))
+    # diamonds (both tiers): a scale that feeds a unary scale AND is read again by a later Add / Subtract / unary scale - the shape
+    # in which "reuse the upstream buffer" optimisations go wrong; depth 3 and 4, every first scale, four middle scales
+    dia = []
+    for u0 in UNARY:
+        for u1 in (LIN, LIN1, POLY3, TABA, LIN2):
+            base = [dict(u0, src=R.RAW), dict(u1, src=0)]
+            for t_ in ('Add', 'Subtract'):
+                for l_, r_ in ((0, 1), (1, 0), (0, 0), (1, 1)):
+                    dia.append(base + [{'type': t_, 'left': l_, 'right': r_}])
+            dia.append(base + [dict(LIN, src=0), {'type': 'Subtract', 'left': 1, 'right': 2}])
+            dia.append(base + [dict(LIN1, src=1), {'type': 'Add', 'left': 0, 'right': 2}])
+    for t in NUMERIC:
+        for i in range(0, len(dia), 100):
+            items.append(('graphs', (t, dia[i:i + 100]), ctx.seed))
     combos = list(itertools.product(PLACE_OPTS, repeat=3))
     for i in range(0, len(combos), 40):
         items.append(('placement', combos[i:i + 40], ctx.seed))
